@@ -326,3 +326,32 @@ func itoa(v int) string {
 	}
 	return itoa(v/10) + string(rune('0'+v%10))
 }
+
+// ErrObjOfCallAny is ErrObjOfCall without the restriction to error-typed results: the variable
+// bound to the last result of the call (`x := f()`, `if x := f(); ...`, `x, y := f()`).
+func ErrObjOfCallAny(info *types.Info, body ast.Node, call *ast.CallExpr) types.Object {
+	var obj types.Object
+	ast.Inspect(body, func(x ast.Node) bool {
+		if obj != nil {
+			return false
+		}
+		switch v := x.(type) {
+		case *ast.AssignStmt:
+			if len(v.Rhs) == 1 && Unparen(v.Rhs[0]) == ast.Expr(call) && len(v.Lhs) > 0 {
+				if id, ok := v.Lhs[len(v.Lhs)-1].(*ast.Ident); ok && id.Name != "_" {
+					if o := info.Defs[id]; o != nil {
+						obj = o
+					} else {
+						obj = info.Uses[id]
+					}
+				}
+			}
+		case *ast.ValueSpec:
+			if len(v.Values) == 1 && Unparen(v.Values[0]) == ast.Expr(call) && len(v.Names) > 0 {
+				obj = info.Defs[v.Names[len(v.Names)-1]]
+			}
+		}
+		return true
+	})
+	return obj
+}
